@@ -1,5 +1,5 @@
 import ClaripyProofs.Lemmas.VSA.Balancer
-import ClaripyProofs.Lemmas.VSA.BalancerPair
+import ClaripyProofs.Lemmas.VSA.BalancerUnsat
 /-!
 # C25 — constraint_to_si never cuts off a satisfying assignment
 
@@ -21,7 +21,9 @@ every arm other than `+` / `-` keeps "the truism holds" (`C25_step_holds`), `+` 
 `C25_balancer_sound`: the bounds `_doit` records contain the value of their expression under every satisfying assignment
 — for unsigned orderings on whose two paths (truism, implicit assumption) no constant is moved across `+` / `-`, and for
 `==` / `!=` on every path; and `C25_pair_sound`: when both paths ONLY move constants across `+` / `-` and end at the same
-expression, the two recorded bounds form a wrapped interval that contains the value (all four unsigned orderings).  The guard is needed: `C25_mixed_path_cuts_off_model` is a concrete constraint (`ZeroExt(4, x) + 3 <= 5`)
+expression, the two recorded bounds form a wrapped interval that contains the value (all four unsigned orderings;
+`C25_balancer_sound_pair` is the same at the level of `_doit`); `C25_unsat_sound`: "unsatisfiable" is only reported for an
+unsigned ordering that no assignment satisfies.  The guard is needed: `C25_mixed_path_cuts_off_model` is a concrete constraint (`ZeroExt(4, x) + 3 <= 5`)
 where the model — and the real code — bound `ZeroExt(4, x)` by the empty set although `x = 0` satisfies it (open finding).
 -/
 namespace Claripy.Props.C25
@@ -137,6 +139,23 @@ theorem C25_pair_sound (T0 A0 : Tru) (p1 p2 : Bounds × BalOut) (hokT : TruOK an
   obtain ⟨bs2, hh2, h2⟩ := bindM_ok h2
   have := pureM_ok h2; subst this
   exact pair_sound anno env hctx hnrm T0 A0 oT oA bs1 bs2 hokT hop hmod hconv hhT hA hbT hbA hptT hptA hsame hh1 hh2
+
+/-- the pair theorem at the level of `_doit`: an unsigned ordering of a sum / difference against a literal (either order);
+both paths only across `+` / `-`, same final expression -/
+theorem C25_balancer_sound_pair (op : CmpOp) (a b : BV) (bs : Bounds) (oT oA : BalOut) (hoa : ExprOK anno env a)
+    (hob : ExprOK anno env b) (hwab : wd a = wd b) (hord : uOrd op) (hsym : ∀ r w, b = .const r w → symBV a = true)
+    (hma : ∀ r w, b = .const r w → isModLhs a = true) (hmb : ∀ r w, a = .const r w → isModLhs b = true)
+    (h : doit anno (.cmp op a b) = .ok (.sat bs ⟨some oT, some oA⟩))
+    (hptT : oT.usedPt = false) (hptA : oA.usedPt = false) (hsame : oT.t.lhs = oA.t.lhs)
+    (hsat : evalB env (.cmp op a b) = some true) : Sound env bs :=
+  doit_pair anno env hctx hnrm op a b bs oT oA hoa hob hwab hord hsym hma hmb h hptT hptA hsame hsat
+
+/-- **the satisfiable flag**: when the model of `_doit` reports an unsigned ordering as unsatisfiable (the `is_false` test on
+the truism, or on its implicit assumption), no assignment satisfies it -/
+theorem C25_unsat_sound (op : CmpOp) (a b : BV) (hoa : ExprOK anno env a) (hob : ExprOK anno env b) (hwab : wd a = wd b)
+    (hord : uOrd op) (hsym : ∀ r w, b = .const r w → symBV a = true)
+    (h : doit anno (.cmp op a b) = .ok .unsat) : evalB env (.cmp op a b) ≠ some true :=
+  doit_unsat_sound anno env hctx hnrm op a b hoa hob hwab hord hsym h
 
 end
 
